@@ -820,6 +820,18 @@ pub mod types {
             i32::try_from(i).map_err(|_| FromSqlError::OutOfRange(i))
         }
     }
+    impl FromSql for bool {
+        fn column_result(v: ValueRef<'_>) -> FromSqlResult<Self> {
+            let i = v.as_i64()?;
+            Ok(i != 0)
+        }
+    }
+    impl FromSql for usize {
+        fn column_result(v: ValueRef<'_>) -> FromSqlResult<Self> {
+            let i = v.as_i64()?;
+            usize::try_from(i).map_err(|_| FromSqlError::OutOfRange(i))
+        }
+    }
     impl FromSql for u64 {
         fn column_result(v: ValueRef<'_>) -> FromSqlResult<Self> {
             let i = v.as_i64()?;
